@@ -16,6 +16,7 @@ RULE = (
     "equal the sequential state after exactly that many single-node steps, at/above it the run must complete "
     "identically. Non-trivial: >= 1 body execution or a cap below the needed steps; distinct = (template, parameters, cap)."
     ' Also: a gate synchronised on TWO signals emitted by parallel body branches of different length (interval loop) and two exit gates that share one exit node, in both gate list orders.'
+    ' Also: every non-nested template once more declared through Graph(edges=[...]) with producer->consumer, self, signal and gate->target arrows; fan-out/join cycles (one and two loop values) and a three-stage turn whose gate reads the first stage and waits for the last.'
 )
 ASSUMPTIONS = [
     "the sequential reference shares only the user functions (hgmon.beh) with the program, no framework semantics",
